@@ -19,6 +19,40 @@ def sim(cfg, n, seed_, out, what):
     return behs
 
 
+def gen_recycle(rng):
+    """slot recycling: spans with (explicit / contextual) parents are created and closed over and over on one or two
+    threads of one registry, with explicit roots in between - a new span lands in the pooled slot of a closed one"""
+    steps = [{"op": "switch", "t": 1, "r": 1}, {"op": "switch", "t": 2, "r": 1}]
+    n, held, entered = 0, [], {1: [], 2: []}
+    for _ in range(rng.randint(20, 45)):
+        t = rng.choice([1, 1, 1, 2])
+        c = rng.random()
+        if n < 40 and (c < 0.5 or not held):
+            pk = rng.choice(["root", "root", "of", "of", "ctx"]) if held else "root"
+            st = {"op": "new", "t": t, "pk": pk, "p": rng.choice(held) if pk == "of" else 0}
+            n += 1
+            held.append(n)
+            steps.append(st)
+        elif c < 0.62 and held and len(entered[t]) < 2:
+            cand = [x for x in held if x not in entered[1] and x not in entered[2]]
+            if cand:
+                x = rng.choice(cand)
+                entered[t].append(x)
+                steps.append({"op": "enter", "t": t, "s": x})
+        elif c < 0.72 and entered[t]:
+            steps.append({"op": "exit", "t": t, "s": entered[t].pop()})
+        else:
+            cand = [x for x in held if x not in entered[1] and x not in entered[2]]
+            if cand:
+                x = rng.choice(cand[-3:])          # mostly recent spans: their slots are the next to be reused
+                held.remove(x)
+                steps.append({"op": "drop", "t": t, "s": x})
+    for t in (1, 2):
+        while entered[t]:
+            steps.append({"op": "exit", "t": t, "s": entered[t].pop()})
+    return {"src": "recycle", "steps": steps}
+
+
 def execute(behs, name):
     w = vlib.workdir(name)
     vlib.write_ndjson(w / "behaviours.ndjson", behs)
@@ -55,6 +89,10 @@ def run(out, tier, prop):
     behs.append({"src": "f2-reproducer", "steps": [
         {"op": "switch", "t": 1, "r": 1}, {"op": "new", "t": 1, "pk": "root", "p": 1}, {"op": "enter", "t": 1, "s": 1},
         {"op": "switch", "t": 1, "r": 2}, {"op": "drop", "t": 1, "s": 1}, {"op": "exit", "t": 1, "s": 1}]})
+    import random
+    rng = random.Random(s * 5 + 1)
+    for _ in range(60 if quick else 600):
+        behs.append(gen_recycle(rng))
     if prop == "C05":
         # reference-count race at the granularity of try_close's atomics: the model, its negative control, and real threads
         r = vlib.require_ok(vlib.tlc(D, "RefCountRace", cfg="RefCountRace", workers=2, timeout=300), "RefCountRace")
@@ -74,7 +112,8 @@ def judge(out, behs, lines, found, prop):
     out.distinct_nontrivial = len({json.dumps(b["steps"], sort_keys=True) for b in behs
                                    if sum(1 for s in b["steps"] if s["op"] in ("enter", "exit", "drop", "tdrop")) >= 4})
     out.rule = ("a case is one history (TLC -simulate of MCRegistrySim: 60 operations over 3 threads, 2 registries, <= 12 spans, 2 capture slots) run "
-                "in its own OS process against real Registry stacks with two recording layers + ErrorSubscriber; distinct = distinct histories with "
+                "in its own OS process against real Registry stacks with two recording layers + ErrorSubscriber; plus slot-recycling histories (create / close "
+                "churn with explicit parents and explicit roots); distinct = distinct histories with "
                 "at least 4 enter/exit/drop operations")
     out.samples = [behs[0]["steps"][:10], [x for x in ops if x.get("closes")][:3]]
     out.assumptions = ["operations of different threads run in the prescribed global order (reference-count interleavings are the RegistryRace model)",
